@@ -86,3 +86,75 @@ def segs_step(old, seg, new):
     if seg == ".":
         return new == old
     return new == old + [seg]
+
+
+# ---- host canonicalisation (C16): library functions behind opaque functional symbols
+
+REGNAME_LOWER = "abcdefghijklmnopqrstuvwxyz0123456789-._~!$&'()*+,;="
+HEX_LOWER = "0123456789abcdef"
+
+
+def regname_bad_at(s):
+    """first index of s that is not part of an RFC 3986 reg-name in lower case
+    (unreserved / sub-delims / '%' followed by two lower-case hex digits); -1 if none"""
+    for i, c in enumerate(s):
+        if c == "%":
+            if not (i + 2 < len(s) and s[i + 1] in HEX_LOWER and s[i + 2] in HEX_LOWER):
+                return i
+        elif c not in REGNAME_LOWER:
+            return i
+    return -1
+
+
+def is_udigit(c):
+    """str.isdigit() of one character (Unicode decimal/digit property)"""
+    return c.isdigit()
+
+
+def is_lower_ascii(s):
+    return s.isascii() and s == s.lower()
+
+
+def ip_ok(s):
+    from ipaddress import ip_address
+    try:
+        ip_address(s)
+    except ValueError:
+        return False
+    return True
+
+
+def ip_version(s):
+    from ipaddress import ip_address
+    return ip_address(s).version
+
+
+def ip_compressed(s):
+    from ipaddress import ip_address
+    return ip_address(s).compressed
+
+
+def idna2008_ok(s):
+    import idna
+    try:
+        idna.encode(s, uts46=True)
+    except UnicodeError:
+        return False
+    return True
+
+
+def idna2008(s):
+    import idna
+    return idna.encode(s, uts46=True).decode("ascii")
+
+
+def idna2003_ok(s):
+    try:
+        s.encode("idna")
+    except UnicodeError:
+        return False
+    return True
+
+
+def idna2003(s):
+    return s.encode("idna").decode("ascii")
